@@ -1039,9 +1039,17 @@ pub fn c14(em: &mut Emit, thorough: bool, seed: u64) {
                             fail(format!("entity header {} present on {}", k, o1.status));
                         }
                     }
-                    // ... and nothing else: beyond what `serve` itself sets, every header line of
-                    // the response is one this entity supplied (each as often as supplied)
+                    // ... and no header of ANOTHER entity: a header line under a name that entities
+                    // of this harness supply (this one, the ones served before it on this thread)
+                    // must be one this entity supplied for this response, as often as it supplied
+                    // it. (A header `serve` might one day add to every response on its own
+                    // account is none of C14's business and is not flagged here.)
                     {
+                        const ENTITY_HEADER_NAMES: [&str; 14] = [
+                            "x-ent-a", "x-ent-b", "content-language", "content-type", "content-disposition",
+                            "x-other-entity", "content-encoding", "vary", "set-cookie", "x-long", "a", "b",
+                            "x-account", "cache-control",
+                        ];
                         let mut own = vec!["accept-ranges", "etag", "date", "last-modified", "content-range", "content-length"];
                         if multipart {
                             own.push("content-type");
@@ -1055,7 +1063,10 @@ pub fn c14(em: &mut Emit, thorough: bool, seed: u64) {
                                 Some(i) => {
                                     supplied.remove(i);
                                 }
-                                None => fail(format!("header line {}: {} is not one this entity supplies", n, hex(v))),
+                                None if ENTITY_HEADER_NAMES.contains(&n.as_str()) || hs.iter().any(|(k, _)| k == n) => {
+                                    fail(format!("header line {}: {} is not one this entity supplies", n, hex(v)))
+                                }
+                                None => {}
                             }
                         }
                     }
